@@ -1054,6 +1054,7 @@ class ComputeGraph(MultiDiGraph):
         Returns ``(new_expr, past_map)`` where ``past_map`` maps
         ``(var_sym, delay_sym) → fresh_sym``.
         """
+        import sympy as sp
         from sympy import Symbol
         past_map: dict = {}
 
@@ -1061,9 +1062,11 @@ class ComputeGraph(MultiDiGraph):
             if not e.args:
                 return e
             if e.func.__name__ == 'past' and len(e.args) == 2:
-                key = (e.args[0], e.args[1])
+                # (numeric delays are compared by value: 1 and 1.0 are one delay)
+                delay = sp.Float(e.args[1]) if e.args[1].is_number and e.args[1].is_real else e.args[1]
+                key = (e.args[0], delay)
                 if key not in past_map:
-                    safe = str(e.args[1]).replace('.', 'p').replace('-', 'm')
+                    safe = str(delay).replace('.', 'p').replace('-', 'm')
                     past_map[key] = Symbol(f'_past_{e.args[0]}_{safe}')
                 return past_map[key]
             new_args = tuple(_visit(a) for a in e.args)
